@@ -105,6 +105,23 @@ static void stage_lengths(Run &R) {
     R.space("C09 bare forms x 4 case patterns; 1 leading label of every length 1-63 x 4 fillings x all suffixes/neighbours; 2 leading labels (l1,l2) grid; 3 leading labels; reserved words as leading labels", total);
 }
 
+// every combination of two and three words of a dictionary (reserved words, their TLDs, names that look special,
+// ordinary words) as the labels of a name: only the documented patterns are special, wherever else the words stand
+static void stage_words(Run &R) {
+    static const char *W[] = {"example", "test", "invalid", "localhost", "onion", "com", "net", "org", "arpa", "home", "local", "corp", "lan", "internal", "localdomain", "mail", "www",
+                              "in-addr", "ip6", "examples", "exampl", "tests", "de", "ru", "info", "museum", "a", "x7", "my-example", "example-1", "EXAMPLE", "Test", "xn--p1ai", "co", "comm", "ORG"};
+    const size_t N = sizeof W / sizeof W[0];
+    uint64_t total = 0, idx = 0;
+    auto go = [&](const Bytes &b) -> bool { total++; if ((int) (idx++ % R.a.nworkers) != R.a.worker) return true; return run_one(R, b); };
+    for (size_t a = 0; a < N; a++) for (size_t b = 0; b < N; b++) {
+        if (!go(Bytes(W[a]) + "." + W[b])) return;
+        for (size_t c = 0; c < N; c++) if (!go(Bytes(W[a]) + "." + W[b] + "." + W[c])) return;
+    }
+    // four labels: the reserved second-level name repeated / shadowed further left
+    for (size_t a = 0; a < 12; a++) for (size_t b = 0; b < 12; b++) for (size_t c = 0; c < 12; c++) for (size_t d = 0; d < 9; d++) if (!go(Bytes(W[a]) + "." + W[b] + "." + W[c] + "." + W[d])) return;
+    R.space("C09 all 2- and 3-label names over a 36-word dictionary (reserved words, their TLDs, look-alikes, ordinary words, case variants) and 4-label names over its first 12 x 12 x 12 x 9 words", total);
+}
+
 static void stage_random(Run &R) {
     std::vector<Bytes> sn = suffixes_and_neighbours();
     rc_run(R, "C09 generated domains: special iff reserved suffix", 2.0, [&](Src &s) -> std::optional<Failure> {
@@ -118,7 +135,7 @@ static void stage_random(Run &R) {
 #ifndef VF_FUZZ
 int main(int argc, char **argv) {
     return std_main(argc, argv, "C09",
-        {{"lengths", stage_lengths}, {"random", stage_random}},
+        {{"lengths", stage_lengths}, {"words", stage_words}, {"random", stage_random}},
         [](Run &R, const Case &c) { return check_one(R, c.getb("domain")); },
         [] { return g_bytes ? mkcase(*g_bytes).str() : std::string(); },
         [](Run &) {
